@@ -246,6 +246,9 @@ class DocGen:
         self.conf = conf
         self.nword = 0
         self.nreg = 0
+        # blanks behind '{' and '|' in the control file rendering of list items / table cells (their own stream of
+        # random numbers: white space never changes which words a document has)
+        self.prng = random.Random(docid * 7919 + conf['W'] * 31 + 17)
 
     # -- words ---------------------------------------------------------------------------------
     def word(self, n, plain=False):
@@ -301,7 +304,13 @@ class DocGen:
         items = [self.words(self.rand_lens(1, 12), plain=True) for _ in range(rng.randint(1, 3))]
         if rng.random() < 0.3:
             items[rng.randrange(len(items))].append(self.word(rng.choice([30, 45, 60]), plain=True))
-        return ('l', rng.choice(['', '', 'nowrap', 'wrapalign']), items)
+        return ('l', rng.choice(['', '', 'nowrap', 'wrapalign']), items, self.pads(len(items)))
+
+    def pad(self):
+        return self.prng.choice([1, 1, 1, 2, 3, 4])
+
+    def pads(self, n):
+        return [self.pad() for _ in range(n)]
 
     def layout(self, nrows, ncols, header, spans):
         """cells of a table in source order: rows of dicts(col, cs = colspan, rs = rowspan, h = header cell,
@@ -329,7 +338,8 @@ class DocGen:
                     rs = min(nrows - r, rng.choice([1, 1, 1, 2, 2, 3])) if spans else 1
                     if both and r < nrows - 1 and free >= 2 and c + 2 < ncols:
                         cs, rs, both = 2, min(nrows - r, rng.choice([2, 2, 3])), False
-                    cell = dict(r=r, col=c, cs=cs, rs=rs, h=bool(header and r == 0) or (spans and rng.random() < 0.06), t=False, w=None)
+                    cell = dict(r=r, col=c, cs=cs, rs=rs, h=bool(header and r == 0) or (spans and rng.random() < 0.06), t=False, w=None,
+                                pad=self.pad())
                     for i in range(rs):
                         for j in range(cs):
                             occ[r + i][c + j] = cell
@@ -364,7 +374,7 @@ class DocGen:
         for x in cells:
             if x['cs'] > 1:       # fits into the columns it spans: they are as wide as their own cells need
                 x['w'] = self.cell(rng.randint(1, sum(natural[x['col']:x['col'] + x['cs']]) + 3 * (x['cs'] - 1)))
-        return ('b', rng.choice(['', '', 'nowrap', 'wrapalign']), wrapcol, header, rows)
+        return ('b', rng.choice(['', '', 'nowrap', 'wrapalign']), wrapcol, header, rows, self.prng.random() < 0.3)
 
     def block_para(self):
         rng = self.rng
@@ -382,7 +392,7 @@ class DocGen:
         for _ in range(rng.randint(lo, hi)):
             r = rng.random()
             if blocks and r < 0.2:
-                out.append(self.block_para())
+                out.append(self.block_para() if r < 0.12 else self.aligned_block_para(avail + 2))
             elif r < 0.45:
                 out.append(self.text_para(avail, tight=rng.choice([0, 0, 1, 2])))
             else:
@@ -424,7 +434,7 @@ class DocGen:
         for x in cells:
             if x['cs'] > 1:
                 x['w'] = self.cell(rng.randint(1, sum(widths[x['col']:x['col'] + x['cs']]) + 3 * (x['cs'] - 1)))
-        return ('b', rng.choice(['', '', 'nowrap', 'wrapalign']), wrapcol, header, rows)
+        return ('b', rng.choice(['', '', 'nowrap', 'wrapalign']), wrapcol, header, rows, self.prng.random() < 0.3)
 
     def list_design(self, avail, delta):
         """#LIST whose items (bullet + blank + text in ASM mode) wrap tightly at avail, last line delta short of it"""
@@ -434,7 +444,56 @@ class DocGen:
             lens = (tight_lengths(rng, avail - 2, rng.randint(1, 2), max(1, avail - 2 - delta), maxw=max(12, avail // 5))
                     or self.rand_lens(1, 12))
             items.append(self.words(lens, plain=True))
-        return ('l', rng.choice(['', '', 'nowrap', 'wrapalign']), items)
+        return ('l', rng.choice(['', '', 'nowrap', 'wrapalign']), items, self.pads(len(items)))
+
+    def aligned_block_para(self, W, s=None):
+        """a paragraph with a #LIST / #TABLE / #UDGTABLE block (<wrapalign> in 3 of 5, <nowrap>, no flag) whose items /
+        rows are long enough for sna2skool to wrap them at line width W. The text of an item, or of one cell of a
+        row (any column), begins 1-4 blanks behind its '{' / '|' and is designed (tight_lengths) to wrap tightly at
+        the width left of a line that begins in that column - where <wrapalign> puts the continuation lines: every
+        line but the last ends a few columns short of the line width and the next word is one character too long
+        to be pulled up. s: the rotation of a sweep document (None: random choices)"""
+        rng = self.rng
+        if s is None:
+            s = rng.randrange(60)
+        kind = ('list', 'table', 'udg')[s % 3]
+        flag = ('wrapalign', 'wrapalign', 'nowrap', 'wrapalign', '')[s % 5]
+        lpad = 1 + s % 4
+        top = W - 2
+
+        def long_text(col):
+            avail = top - col
+            lens = None
+            if avail >= 12:
+                lens = tight_lengths(rng, avail, rng.choice([2, 3, 3, 4]), max(1, avail - 2 - rng.randrange(4)),
+                                     maxw=max(12, avail // 5))
+            return self.words(lens or self.rand_lens(8, 30), plain=True)
+        if kind == 'list':
+            items = [long_text(1 + lpad)]
+            pads = [lpad]
+            if rng.random() < 0.5:
+                k = rng.randrange(2)
+                items.insert(k, self.words(self.rand_lens(1, 12), plain=True))
+                pads.insert(k, self.pad())
+            block = ('l', flag, items, pads)
+        else:
+            ncols = rng.randint(1, 3)
+            lc = rng.randrange(ncols)
+            rows = self.layout(rng.randint(1, 2), ncols, False, False)
+            for row in rows:
+                row[lc]['pad'] = lpad
+                col = 0
+                for c, x in enumerate(row):
+                    col += (1 if c == 0 else 2) + x['pad']      # '{' or ' |' and the blanks behind it
+                    if c == lc:
+                        break
+                    x['w'] = self.words([rng.randint(1, 4)], plain=True)
+                    col += len(x['w'][0])
+                row[lc]['w'] = long_text(col)
+                for x in row[lc + 1:]:
+                    x['w'] = self.words([rng.randint(1, 4)], plain=True)
+            block = ('b', flag, lc, False, rows, kind == 'udg')
+        return self.around(block, top, rng.choice(POSITIONS))
 
     def around(self, block, avail, pos, delta=0):
         """paragraph = [text] block [text]; the text wraps tightly at avail (text behind a block keeps one
@@ -667,6 +726,12 @@ def gen_doc(seed, docid, W, kind):
             ent['regs'] = g.sweep_registers(seed)
             ent['start'] = [g.text_para(pav, tight=(docid + 1) % 3)]
             ent['end'] = [g.text_para(pav, tight=(docid + 2) % 3)]
+            # a block whose items / rows sna2skool has to wrap, cell texts beginning 1-4 blanks behind '{' / '|': in the
+            # description, the start comment, a mid-block comment (below), the end comment in turn
+            aligned = g.aligned_block_para(W, seed)
+            place = ('desc', 'start', 'mid', 'end')[(seed // 5) % 4]
+            if place != 'mid':
+                ent[place].append(aligned)
         else:
             ent['title'] = g.text_para(pav, tight=rng.choice([None, None, 0, 1]), long_word=rng.random() < 0.08)
             ent['desc'] = g.paras(0, 3, pav)
@@ -768,6 +833,8 @@ def gen_doc(seed, docid, W, kind):
             ordinal += k
             if groups and rng.random() < (0.5 if kind == 'random' else 0.3):
                 grp['mid'] = g.paras(1, 2, pav, blocks=kind == 'random')
+            if kind == 'sweep' and place == 'mid' and len(groups) == 1:
+                grp['mid'] = grp['mid'] + [aligned]
             groups.append(grp)
         ent['groups'] = groups
         entries.append(ent)
@@ -778,12 +845,14 @@ def gen_doc(seed, docid, W, kind):
 # ----------------------------------------------------------------------------------------------
 # renderings of the abstract document (inputs of the tools)
 # ----------------------------------------------------------------------------------------------
-def table_marker(chunk):
-    _, flag, wrapcol, header, rows = chunk
+def table_marker(chunk, ctl=False):
+    """ctl: the control file may call the table #UDGTABLE (same syntax; sna2skool treats both alike, skool2asm
+    leaves a #UDGTABLE out - the skool file for skool2asm / skool2html always says #TABLE)"""
+    _, flag, wrapcol, header, rows, udg = chunk
     classes = ['default'] + [''] * (wrapcol or 0)
     if wrapcol is not None:
         classes.append(':w')
-    return '#TABLE(%s)%s' % (','.join(classes), '<%s>' % flag if flag else '')
+    return '#%sTABLE(%s)%s' % ('UDG' if ctl and udg else '', ','.join(classes), '<%s>' % flag if flag else '')
 
 
 def cell_indicators(cell):
@@ -803,38 +872,49 @@ def cell_indicators(cell):
     return '=' + ','.join(ind) if ind else ''
 
 
-def skool_tokens(para):
-    """tokens of a paragraph in skool / control file syntax, with the chunk structure:
-    list of (tokens, kind) where kind in 'text','marker','row','end'"""
+def skool_tokens(para, ctl=False):
+    """tokens of a paragraph in skool / control file syntax (ctl: as the control file has them, i.e. with
+    #UDGTABLE markers), with the chunk structure: list of (tokens, kind, gaps) where kind in 'text', 'marker',
+    'row:<flag>', 'end' and gaps = number of blanks behind each token in the control file (more than one
+    only behind the '{' of an item / row and the '|' in front of a cell)"""
     out = []
     for ch in para:
         if ch[0] == 't':
-            out.append((list(ch[1]), 'text'))
+            out.append((list(ch[1]), 'text', [1] * len(ch[1])))
         elif ch[0] == 'l':
-            out.append((['#LIST' + ('<%s>' % ch[1] if ch[1] else '')], 'marker'))
-            for item in ch[2]:
-                out.append((['{'] + list(item) + ['}'], 'row:' + ch[1]))
-            out.append((['LIST#'], 'end'))
+            out.append((['#LIST' + ('<%s>' % ch[1] if ch[1] else '')], 'marker', [1]))
+            for item, pad in zip(ch[2], ch[3]):
+                out.append((['{'] + list(item) + ['}'], 'row:' + ch[1], [pad] + [1] * (len(item) + 1)))
+            out.append((['LIST#'], 'end', [1]))
         else:
-            _, flag, wrapcol, header, rows = ch
-            out.append(([table_marker(ch)], 'marker'))
+            _, flag, wrapcol, header, rows, udg = ch
+            out.append(([table_marker(ch, ctl)], 'marker', [1]))
             for r, row in enumerate(rows):
-                toks = ['{']
+                toks = []
+                gaps = []
                 for c, cell in enumerate(row):
-                    if c:
-                        toks.append('|')
+                    toks.append('|' if c else '{')
+                    gaps.append(cell['pad'])
                     ind = cell_indicators(cell)
                     if ind:
                         toks.append(ind)
                     toks.extend(cell['w'])
+                    gaps.extend([1] * (len(toks) - len(gaps)))
                 toks.append('}')
-                out.append((toks, 'row:' + flag))
-            out.append((['TABLE#'], 'end'))
+                gaps.append(1)
+                out.append((toks, 'row:' + flag, gaps))
+            out.append((['UDGTABLE#' if ctl and udg else 'TABLE#'], 'end', [1]))
     return out
 
 
-def flat(para):
-    return [t for toks, _ in skool_tokens(para) for t in toks]
+def flat(para, ctl=False):
+    return [t for toks, _, _ in skool_tokens(para, ctl) for t in toks]
+
+
+def ctl_text(para):
+    """the paragraph as one control file comment: tokens separated by one blank, items / cells beginning 1-4
+    blanks behind their '{' / '|'"""
+    return ''.join(t + ' ' * g for toks, _, gaps in skool_tokens(para, True) for t, g in zip(toks, gaps)).rstrip()
 
 
 def split_lines(rng, toks, sizes=(1, 2, 3, 5, 8, 12, 20)):
@@ -999,18 +1079,18 @@ def render_ctl(doc, rng):
     mem = {}
     for ent in doc['entries']:
         a0 = ent['addr']
-        L.append('%s %d %s' % (ent['ctl'], a0, ' '.join(flat(ent['title']))))
+        L.append('%s %d %s' % (ent['ctl'], a0, ctl_text(ent['title'])))
         for p in ent['desc']:
-            L.append('D %d %s' % (a0, ' '.join(flat(p))))
+            L.append('D %d %s' % (a0, ctl_text(p)))
         for reg in ent['regs']:
-            L.append('R %d %s %s' % (a0, reg_head(reg), ' '.join(flat(reg['para']))))
+            L.append('R %d %s %s' % (a0, reg_head(reg), ctl_text(reg['para'])))
         for p in ent['start']:
-            L.append('N %d %s' % (a0, ' '.join(flat(p))))
+            L.append('N %d %s' % (a0, ctl_text(p)))
         for grp in ent['groups']:
             ins = grp['ins']
             for p in grp['mid']:
-                L.append('N %d %s' % (ins[0]['addr'], ' '.join(flat(p))))
-            text = ' '.join(grp['words'])
+                L.append('N %d %s' % (ins[0]['addr'], ctl_text(p)))
+            text = ctl_text(grp['para']) if grp['para'] else ' '.join(grp['words'])
             total = sum(len(i['data']) for i in ins)
             if len(ins) == 1:
                 L.append(('B %d,%d,%d %s' % (ins[0]['addr'], total, total, text)).rstrip())
@@ -1024,7 +1104,7 @@ def render_ctl(doc, rng):
                 for n, b in enumerate(i['data']):
                     mem[i['addr'] + n] = b
         for p in ent['end']:
-            L.append('E %d %s' % (a0, ' '.join(flat(p))))
+            L.append('E %d %s' % (a0, ctl_text(p)))
     L.append('i %d' % doc['end'])
     org = doc['entries'][0]['addr']
     data = bytes(mem.get(a, 0) for a in range(org, doc['end']))
@@ -1072,7 +1152,7 @@ def table_minw(chunk, wcmin=10):
     """narrowest rendering of the table in ASM mode: a column marked :w may shrink to wrap-column-width-min
     (or its longest word, or its natural width if that is less). Cells that span columns are generated so that
     they fit into the unshrunk columns; if one lies over the :w column the narrowest width is not known (0)."""
-    _, flag, wrapcol, header, rows = chunk
+    _, flag, wrapcol, header, rows = chunk[:5]
     cells = [x for row in rows for x in row]
     ncols = max(x['col'] + x['cs'] for x in cells)
     if wrapcol is not None and any(x['cs'] > 1 and x['col'] <= wrapcol < x['col'] + x['cs'] for x in cells):
@@ -1126,8 +1206,8 @@ def exp_para(it, para, tool, sec):
     tabs = []
     if tool in ('skool', 'gen'):
         st.append([1, 0, 0])
-        chunks = skool_tokens(para)
-        for toks, kind in chunks:
+        chunks = skool_tokens(para, ctl=tool == 'skool')
+        for toks, kind, _ in chunks:
             if tool == 'skool' and len(chunks) > 1:
                 st.append([len(words) + 1, 0, 1 if kind == 'row:nowrap' else 0])
             words.extend(toks)
@@ -1169,7 +1249,7 @@ def exp_regs(it, regs, tool):
             rendered(it, reg['para'], tool, words, sub if tool == 'html' else st, tabs, head=len(head))
         else:
             # sna2skool wraps a register description as plain text: the tokens of the blocks, in order
-            words.extend(flat(reg['para']))
+            words.extend(flat(reg['para'], ctl=tool == 'skool'))
     return dict(t='P', sec=3, w=it.codes(words, True), st=st, dotc=1 if tool in ('skool', 'gen') else 0, tabs=tabs,
                 k=0, ins=[], name='regs', cls=['reg:' + r['cls'] for r in regs], pcls=pcls)
 
@@ -1192,6 +1272,8 @@ def expected(it, ent, tool):
         for p in grp['mid']:
             add(p, 5, 'mid')
         words, st, tabs = grp['words'], [], []
+        if grp['para'] and tool == 'skool':
+            words = flat(grp['para'], ctl=True)
         if grp['para'] and tool in ('asm', 'html'):
             words = []
             rendered(it, grp['para'], tool, words, st, tabs)
@@ -1594,6 +1676,56 @@ def _capture(fn, args):
     return out.getvalue(), err.getvalue(), exc
 
 
+BLOCK_BEGIN = re.compile(r'^#(LIST|TABLE|UDGTABLE)(\([^)]*\))?<wrapalign>$')
+
+
+def wrapalign_stats(text, W):
+    """(coverage only, no verdict) the items / rows of <wrapalign> blocks in the paragraphs sna2skool wrote:
+    wrapped = written on more than one line; multi = wrapped and the continuation lines are aligned with a text
+    that begins two or more blanks behind its '{' / '|'; near = multi and some continuation line breaks where the
+    next word would have fitted had the line been allowed as many columns more as there are extra blanks"""
+    n = {}
+
+    def count(key):
+        n[key] = n.get(key, 0) + 1
+    kind = None
+    row = None
+    for line in text.split('\n'):
+        line = line.rstrip('\r')
+        body = line[2:] if line.startswith('; ') else None
+        if body is None:
+            kind = row = None
+            continue
+        m = BLOCK_BEGIN.match(body)
+        if m:
+            kind = m.group(1).lower()
+            row = None
+        elif kind and body.endswith(('LIST#', 'TABLE#')):
+            kind = row = None
+        elif kind:
+            if body.startswith('{'):
+                row = []
+            if row is not None:
+                row.append(body)
+                if body.endswith(' }') or body == '}':
+                    if len(row) > 1:
+                        count('wrapped')
+                        first = row[0]
+                        ind = len(row[1]) - len(row[1].lstrip())
+                        extra = 0
+                        while ind - 2 - extra >= 0 and first[ind - 2 - extra] == ' ':
+                            extra += 1
+                        if extra and len(first) > ind and first[ind - 1] == ' ' and first[ind] != ' ':
+                            count('multi')
+                            count('multi:' + kind)
+                            count('multi:extra%d' % extra)
+                            if any(len(a) + 3 + len(b.split()[0]) <= W + extra for a, b in zip(row[1:], row[2:])):
+                                count('near')
+                                count('near:' + kind)
+                    row = None
+    return n
+
+
 def run_doc(doc, wd):
     """-> list of cases (one per tool and entry)"""
     from skoolkit import skool2asm, skool2html, sna2skool
@@ -1650,6 +1782,7 @@ def run_doc(doc, wd):
     out, err, exc = _capture(sna2skool.main, args)
     excs['skool'] = exc
     outs['skool'] = proj_skool(it, out) if not exc else []
+    wastats = wrapalign_stats(out, conf['W']) if not exc else {}
     outs['gen'] = proj_skool(it, skool)
     excs['gen'] = ''
     shutil.rmtree(d, ignore_errors=True)
@@ -1665,6 +1798,7 @@ def run_doc(doc, wd):
                 eop=max(len(i['op']) for g in ent['groups'] for i in g['ins']),
                 dot=it.code('.'), bul=it.code('*'), exc=excs[tool], exp=exp[tool][ei], out=o,
                 extra=len(outs[tool]) - len(doc['entries']),
+                wa=wastats if tool == 'skool' and ei == 0 else {},
                 doc=dict(seed=doc['seed'], docid=doc['docid'], kind=doc['kind'], W=conf['W'], conf=conf)))
     return cases
 
